@@ -4,11 +4,13 @@ import SqiGen.Tables1
 import SqiGen.Tables3
 import SqiGen.Tables5
 import SqiModel.SkelTheta
+import SqiModel.SkelRec
 /- driver ops for the (2,2)-chain models:
      theta.trace <lvl> <row> <n> <ea> <which>   -> hook-visible trace of theta_chain_comput_strategy (which=0) /
                                                    _faster_no_eval (which=1) on strategies[row]; "… E" on a fault
      theta.trace.row <n> <ea> <which> x1 x2 …   -> same on an explicit strategy array
      theta.summary.row <n> <ea> x1 x2 …         -> "<err?> <index> <#steps>"
+     skel.rec <lo> <hi>                         -> number of n in [lo,hi) where the translated recursion and `balanced n` disagree
      theta.bal <n>                              -> trace of the balanced recursion inside theta_chain_comput_balanced -/
 namespace SqiModel.Drv.ThetaChain
 open SqiModel SqiModel.Util SqiModel.ThetaChain
@@ -63,6 +65,11 @@ def handle : List String → Option String
       let row ← parseNats? xs
       let s := chain { row := row, n := n, eightAbove := ea != 0 }
       pure s!"{if s.err.isSome then 1 else 0} {toHex s.index} {toHex ((s.trace.map Ev.steps).sum)}"
+  | ["skel.rec", lo, hi] => do  -- generated skeleton of theta_chain_comput_rec vs hand model `balanced`, lo ≤ n < hi
+      let lo ← parseHexNat? lo
+      let hi ← parseHexNat? hi
+      let bad := (List.range (hi - lo)).filter (fun k => !SqiModel.SkelRec.balAgree (lo + k))
+      pure s!"{bad.length} {hi - lo}" 
   | ["theta.bal", n] => do
       let n ← parseHexNat? n
       let (evs, _) := balanced n
